@@ -211,7 +211,11 @@ def check_case(ctx, case):
             xd = xs.astype(np.float64)
             yd = ys.astype(np.float64)
             for name, sf in sparse_fns.items():
-                s, e = _call(sf, i1, d1.copy(), i2, d2.copy())
+                ops = (i1.copy(), d1.copy(), i2.copy(), d2.copy())
+                s, e = _call(sf, *ops)
+                if not all(np.array_equal(u, v) for u, v in zip(ops, (i1, d1, i2, d2))):
+                    viol("sparse_" + name, "modifies-operands", {"i1": ops[0], "expected_i1": i1})
+                    continue
                 d, e2 = _call(dense_fns[name], xd.copy(), yd.copy())
                 ctx.count("sparse_vs_dense")
                 if e:
@@ -263,8 +267,12 @@ def check_case(ctx, case):
         a[i1] = d1
         b[i2] = d2
         for name, f, ref in (("sparse_sum", D.sparse_sum, a + b), ("sparse_diff", D.sparse_diff, a - b), ("sparse_mul", D.sparse_mul, a * b)):
-            got, e = _call(f, i1.copy(), d1.copy(), i2.copy(), d2.copy())
+            ops = (i1.copy(), d1.copy(), i2.copy(), d2.copy())
+            got, e = _call(f, *ops)
             ctx.count("helpers")
+            if not all(np.array_equal(u, v) for u, v in zip(ops, (i1, d1, i2, d2))):
+                viol(name, "modifies-operands", {"i1": ops[0], "expected_i1": i1, "i2": ops[2], "expected_i2": i2})
+                continue
             if e:
                 viol(name, "raises", e)
                 continue
